@@ -197,7 +197,9 @@ def r4_hierarchy_by_reference(ctx):
             if len(params.items) != 2:
                 continue
             hit = [f for b in body for f in L.walk(b) if L.head(f) == "alter-var-root"]
-            ok = bool(hit) and all(len(f.items) >= 5 and f.items[1].text() in ("#'global-hierarchy", "(var global-hierarchy)") and L.is_sym(f.items[2], name) and [x.text() for x in f.items[3:]] == [p.text() for p in params.items] for f in hit)
+            # unconditional: the update is a direct body form of the arity (derive/underive must
+            # record every declared edge, even one that is already implied transitively)
+            ok = bool(hit) and all(any(f is b for b in body) for f in hit) and all(len(f.items) >= 5 and f.items[1].text() in ("#'global-hierarchy", "(var global-hierarchy)") and L.is_sym(f.items[2], name) and [x.text() for x in f.items[3:]] == [p.text() for p in params.items] for f in hit)
             ctx.ob("C18.R4", f"{CORE}::{name}::{params.text()}", CORE, d.line, ok, "" if ok else f"the global arity of {name} does not update #'global-hierarchy through alter-var-root with (tag parent) in order")
 
 
